@@ -1079,7 +1079,7 @@ static int sp_dgemv(char tA, int m, int n, number alpha, void *a, int oA,
   int aiy = abs(iy);
   scal[A->id]((tA == 'N' ? &m : &n), &beta, Y, &aiy);
 
-  if (!m) return 0;
+  if (!m || !n) return 0;
   int i, j, k, oi = oA % A->nrows, oj = oA / A->nrows;
 
   if (tA == 'N') {
@@ -1118,7 +1118,7 @@ static int sp_zgemv(char tA, int m, int n, number alpha, void *a, int oA,
   int aiy = abs(iy);
   scal[A->id]((tA == 'N' ? &m : &n), &beta, Y, &aiy);
 
-  if (!m) return 0;
+  if (!m || !n) return 0;
   int i, j, k, oi = oA % A->nrows, oj = oA / A->nrows;
 
   if (tA == 'N') {
